@@ -46,7 +46,7 @@ Functions those changes edited (choose code elsewhere if you can): {funcs}.
 {extra}
 """
 
-EXTRA = """Find a DIFFERENT mechanism with a DIFFERENT kind of trigger. Read widely first (lexer, parser, ast, object, evaluator, built-in functions, template loading in the root package, fail/, config/, ctx/, token/, utils/), including how the pieces call each other, and read the statement of the property sentence by sentence and its "Quantified over" line dimension by dimension: pick a clause, a listed construct, a listed case or a dimension of the quantifier that none of the earlier changes attacked, or attack an attacked clause through a construct, an API entry point (EvaluateString, EvaluateFile, NewTemplate, Template.String, Template.Response, Configure, the Register*Func family) or a configuration that none of them used. Prefer a change whose trigger somebody testing this property with randomly generated templates, data and call sequences would plausibly NOT generate: a legal but unusual spelling or clause form, a rarely used built-in, directive, option or API entry point, a combination of two or three constructs, a value at a boundary of a type or a length, a name or path with an unusual shape, a particular order or repetition of calls, a file system detail, a less common Go type in the data, a particular nesting depth or count (the third of something, more than N of something), a particular position (first, last, only) of something, a size threshold. It must be something a maintainer would plausibly do (a small feature or convenience with one corner wrong, a helper extracted that is not equivalent for one caller, a data structure change, a reordered check, a library call with slightly different semantics, an early return or fast path, a cache, a 'simplification', a fixed-size buffer or limit, an error message 'improvement'). The change must still break the stated property for a whole class of inputs (say which), compile, and keep the existing suite green. In this round prefer a change of the kind that happens when somebody TIDIES UP: (a) two functions or branches that do almost the same are merged into one helper, and the helper is right for one caller and subtly wrong for the other; (b) a hand-written loop is replaced by a standard-library call - or one library call by a neighbouring one - whose semantics differ in a corner: strings.TrimSpace / Trim / TrimLeft / TrimPrefix, strings.Fields / Split / SplitN, strings.Title / ToUpper / unicode.ToUpper / ToTitle, strings.EqualFold / ==, strings.Index / LastIndex / IndexByte / IndexRune, strings.Replace with a count / ReplaceAll, len(s) / utf8.RuneCountInString / len([]rune(s)), s[i] / []rune(s)[i], strconv.Atoi / ParseInt with base 0 or a bit size / ParseFloat, strconv.Itoa / FormatInt / fmt.Sprint / %v / %d / %g / %f, strconv.Quote / %q, html.EscapeString / a hand-written replacer, path.Join / filepath.Join / string concatenation, path.Clean, filepath.Ext / strings.HasSuffix, filepath.Rel, filepath.Walk / WalkDir / os.ReadDir, os.ReadFile / io.ReadAll, sort.Strings / sort.Slice / slices.Sort, maps.Keys, append / copy / slices.Clone / slices.Insert, math.Round / Floor / Trunc / int(x), integer division and modulo of negative numbers, bytes.Buffer / strings.Builder; (c) a type switch replaces a chain of ifs (or the other way round) and one kind falls into another arm; (d) an early return is added or a condition is simplified with De Morgan and one combination comes out differently; (e) an error value is wrapped, compared or passed on differently (errors.Is / ==, %w / %v, a nil interface holding a nil pointer). Read the code for places where such a tidy-up suggests itself (duplicated blocks, long if chains, manual loops over runes or bytes, repeated conversions) and make it - with the slip. The result must read as a clean-up a reviewer would wave through."""
+EXTRA = """Find a DIFFERENT mechanism with a DIFFERENT kind of trigger. Read widely first (lexer, parser, ast, object, evaluator, built-in functions, template loading in the root package, fail/, config/, ctx/, token/, utils/), including how the pieces call each other, and read the statement of the property sentence by sentence and its "Quantified over" line dimension by dimension: pick a clause, a listed construct, a listed case or a dimension of the quantifier that none of the earlier changes attacked, or attack an attacked clause through a construct, an API entry point (EvaluateString, EvaluateFile, NewTemplate, Template.String, Template.Response, Configure, the Register*Func family) or a configuration that none of them used. Prefer a change whose trigger somebody testing this property with randomly generated templates, data and call sequences would plausibly NOT generate: a legal but unusual spelling or clause form, a rarely used built-in, directive, option or API entry point, a combination of two or three constructs, a value at a boundary of a type or a length, a name or path with an unusual shape, a particular order or repetition of calls, a file system detail, a less common Go type in the data, a particular nesting depth or count (the third of something, more than N of something), a particular position (first, last, only) of something, a size threshold. It must be something a maintainer would plausibly do (a small feature or convenience with one corner wrong, a helper extracted that is not equivalent for one caller, a data structure change, a reordered check, a library call with slightly different semantics, an early return or fast path, a cache, a 'simplification', a fixed-size buffer or limit, an error message 'improvement'). The change must still break the stated property for a whole class of inputs (say which), compile, and keep the existing suite green. In this round prefer a change in a LOW-LEVEL PACKAGE that the rest of the library builds on, whose effect surfaces through the property only for some inputs: token/ (token types, positions, Contains, ErrorLine), utils/ (string and number helpers), object/ (the value types: their String / Dump / Is / Val / Type methods, Env and its Set / Get / enclosing chain, EnvFromMap, NativeToObject and the conversions of every Go kind, Reserve / Slot / Component objects), config/ (Config, New, defaults, the function registry Func and its maps), ctx/ (EvalCtx), fail/ (Error, its constructors and accessors, the message constants and their verbs), ast/ (node constructors, Tok / Line / Position / String methods, Stmts() of each block statement, Program and its maps of inserts, reserves and components). Read those packages completely first, then find which of their functions the code behind the property depends on, and change one of THEM - a boundary in a helper, a kind missing from a switch, a zero value that is treated as absent, a method that answers for the wrong receiver field, a map that is shared instead of copied, a String method that rounds, trims, quotes or escapes, an equality that compares pointers, an integer conversion that truncates - so that the callers, unchanged and individually reasonable, now break the property for a class of inputs. Do not edit the lexer, the parser or evaluator/evaluator.go in this round."""
 
 
 def funcs_of(patch):
